@@ -69,7 +69,10 @@ long_like = st.builds(lambda shape, t: shape + t,
                                        "/<<PAD>>\t$", "/<<PAD>>\tq\t!", "h /<<PAD>> 0", "h /<<PAD>> 12", "gemini://h/<<PAD>>",
                                        "/<<PAD>>", "<<PAD>>\t", "/x\t<<PAD>>"]),
                       st.sampled_from(["\r\n", "\n"]))
-line_st = st.one_of(http_like, http_like, gplus_like, gplus_like, spartan_like, gemini_like, raw_line, long_like,
+# a line of any documented shape behind a UTF-8 byte order mark (or another invisible prefix): it has that shape no longer
+marked_like = st.builds(lambda pre, l: pre + l, st.sampled_from(["\xef\xbb\xbf", "\xef\xbb\xbf", "\xfe\xff", "\xff\xfe", "\xe2\x80\x8b", "\x00"]),
+                        st.one_of(http_like, spartan_like, gemini_like, gplus_like))
+line_st = st.one_of(http_like, http_like, gplus_like, gplus_like, spartan_like, gemini_like, raw_line, long_like, marked_like,
                     st.sampled_from(["\r\n", "\n", "", "\t\r\n", "/\r\n"]))
 
 headers_st = st.lists(st.sampled_from(HEADER_LINES), max_size=4).map(
